@@ -144,24 +144,29 @@ def eval_jsonfield(case):
     if d is not None and cname not in ALWAYS_ENCODES:
         if (td or {}).keys() != d.keys():
             bad('to_dict-disagrees', '', f'to_dict keys {sorted((td or {}).keys())} vs to_json keys {sorted(d.keys())}')
-    # forward compatibility: one unknown key at every position
+    # forward compatibility: one unknown key at every position - a key nobody uses, and keys that happen to be spelled like
+    # something the class already has (a method, a class-level table)
     if d is not None:
         items = list(d.items())
-        for pos in range(len(items) + 1):
-            d2 = dict(items[:pos] + [('zz_future_field', FUTURE_VALUE.get(cname, 'x'))] + items[pos:])
-            try:
-                z = cls.from_json(json.dumps(d2))
-            except Exception as e:
-                bad('unknown-key-raises', '', f'unknown key at position {pos}: {type(e).__name__}: {e}')
-                break
-            fz = fields(z) if z is not None else {}
-            lost = [f for f in before if not same(before[f], fz.get(f))]
-            if lost:
-                bad('unknown-key-drops-known', lost[0], f'unknown key at position {pos} lost {lost}')
-                break
-            if 'zz_future_field' in fz:
-                bad('unknown-key-stored', '', 'unknown key became an attribute')
-                break
+        for uk in ('zz_future_field', 'to_json', 'update', 'VALIDATORS'):
+            stop = False
+            for pos in range(len(items) + 1):
+                d2 = dict(items[:pos] + [(uk, FUTURE_VALUE.get(cname, 'x'))] + items[pos:])
+                tag = '' if uk == 'zz_future_field' else f'/{uk}'
+                try:
+                    z = cls.from_json(json.dumps(d2))
+                    fz = fields(z) if z is not None else {}
+                    again = z.to_json() if z is not None else ''
+                except Exception as e:
+                    bad('unknown-key-raises' + tag, '', f'unknown key {uk!r} at position {pos}: {type(e).__name__}: {e}')
+                    break
+                lost = [f for f in before if not same(before[f], fz.get(f))]
+                if lost:
+                    bad('unknown-key-drops-known' + tag, lost[0], f'unknown key {uk!r} at position {pos} lost {lost}')
+                    break
+                if uk in fz or (uk != 'zz_future_field' and again != text):
+                    bad('unknown-key-stored' + tag, '', f'unknown key {uk!r} became part of the value (re-encodes as {again!r})')
+                    break
     # the encoder did not mutate its input
     if not same(before, fields(x)):
         bad('encode-mutates', '', f'fields changed from {before} to {fields(x)}')
